@@ -27,11 +27,11 @@ theorem parse_write_record (cv : Conv) (fmt : Bytes → Bytes) (flush split : Bo
   OpmVerif.DeckWrite.parse_write_record cv fmt flush split items r hc hlen htrail hat
 
 /-- `flush` is what `DeckOutput::end_record` does with defaults still pending, as the
-translator finds it in DeckOutput.cpp on this run (`outFlushPendingDefaults`).  As the code
-stands they are dropped (`false`), and `htrail` excludes the records for which that loses
-information: an item of size ALL that ends in defaulted values.  If they are written
-whenever the record holds an explicit value (`true`, the candidate fix) nothing is dropped
-from such a record and `htrail` holds for it. -/
+translator finds it in DeckOutput.cpp on this run (`outFlushPendingDefaults`).  Before fix
+452487d0e they were dropped (`false`), and `htrail` excluded the records for which that
+loses information: an item of size ALL that ends in defaulted values.  Since the fix they
+are written whenever the record holds an explicit value (`true`): nothing is dropped from
+such a record and `htrail` holds for it. -/
 theorem no_restriction_when_pending_defaults_are_written (flat : Vals) (h : ∃ p ∈ flat, p.2 = .deck) :
     pend true false 0 flat = 0 :=
   pend_flush flat h 0
